@@ -1140,6 +1140,13 @@ def _area_specific(A, o1, b1, inp, rec, kind, settings, cfg, rng, keys):
         if E(ow[0] == "ok", inp, "option_words fails", ow):
             words = [int.from_bytes(b1[i:i + 4], "little") for i in range(0, len(b1), 4)]
             E(ow[1] == words[:len(ow[1])] and 1 <= len(ow[1]) <= len(words), inp, "option words are not the leading words of the exported registers", ow[1], words)
+            # how many option words count, restated from the database rule name and the bits of word 0 (not from option_words_count):
+            # "All" = every register; "OptionSize" = 1 + the OptionSize field; "AcTimingMode" = every register iff the field's value is the
+            # enum member named UserDefined, else the first word only  (seeded change C12h compared the raw value with the wrong constant)
+            exp = pyres(lambda: _expected_ow_count(A, o1, words[0]))
+            if exp[0] == "ok" and exp[1] is not None:
+                E(len(ow[1]) == exp[1], inp, "the number of option words is not what the database's ow_counts_rule says for these register values "
+                  "(the configuration and the words sent to the device drop / add option words)", len(ow[1]), exp[1])
             # the option words alone (what blhost receives) parse back to the same option words
             r = pyres(lambda: list(A.cls.parse(A.cls.option_words_to_bytes(ow[1]), family=A.family, peripheral=A.per, revision=A.rev).option_words))
             E(r == ("ok", ow[1]), inp, "parse(option words) does not give the same option words", r, ow[1])
@@ -1153,6 +1160,22 @@ def _area_specific(A, o1, b1, inp, rec, kind, settings, cfg, rng, keys):
         if vals[0] == "ok":
             rec.model.append({"op": "tz", "vals": vals[1], "bytes": b1.hex(), "n": len(names), "inp": list(map(str, inp))})
 
+
+
+def _expected_ow_count(A, obj, word0):
+    from spsdk.utils.database import get_db
+    rule = get_db(A.family, A.rev).get_str("memcfg", ["peripherals", A.per, "ow_counts_rule"])
+    regs = obj.regs.get_registers()
+    if rule == "All":
+        return len(regs)
+    if rule in ("OptionSize", "AcTimingMode"):
+        bf = regs[0].find_bitfield(rule)
+        v = (word0 >> bf.offset) & ((1 << bf.width) - 1)
+        if rule == "OptionSize":
+            return min(1 + v, len(regs))     # only the words that exist (a random OptionSize can name more than the peripheral has)
+        names = {int(e.value): e.name for e in bf.get_enums()}
+        return len(regs) if names.get(v) == "UserDefined" else 1
+    return None
 
 
 def _xmcd_sequence(A, b1, inp, rec, rng):
